@@ -105,6 +105,25 @@ def calls(log, who=None, what=None):
     return [e for e in log if (who is None or e[0] == who) and (what is None or e[1] == what)]
 
 
+def composed(perms, n):
+    """composition of virtual transpositions applied one after the other (tuple or None if malformed)"""
+    tot = list(range(n))
+    for p in perms:
+        if not (isinstance(p, tuple) and sorted(p) == list(range(n))):
+            return None
+        tot = [tot[i] for i in p]
+    return tuple(tot)
+
+
+def odd_axes(flips):
+    """axes that are parity-flipped an odd number of times (a flip is an involution)"""
+    cnt = {}
+    for e in flips:
+        for a in e[2]:
+            cnt[a] = cnt.get(a, 0) + 1
+    return sorted(a for a, c in cnt.items() if c % 2)
+
+
 def untouched(log, name):
     """nothing was ever done IN PLACE to the array called `name`"""
     return all(not (e[0] == name and e[4] == name and e[1] not in ("copy",)) for e in log)
@@ -145,9 +164,9 @@ def _trace_task():
         ob(tag + ".operand_untouched", untouched(log, "x") and y is not x)
         flips = calls(log, what="phase_flip")
         # the pair meets as ket-then-bra exactly when the LEFT index is a ket (non-dual)
-        ob(tag + ".parity_sign_exactly_when_the_pair_meets_as_ket_then_bra", (len(flips) == 1) == (not dl) and len(flips) <= 1)
+        ob(tag + ".parity_sign_exactly_when_the_pair_meets_as_ket_then_bra", (len(odd_axes(flips)) == 1) == (not dl) and len(odd_axes(flips)) <= 1)
         if flips:
-            ob(tag + ".flip_is_on_one_leg_of_the_pair", flips[0][2] in ((0,), (1,)) and flips[0][0] == "x")
+            ob(tag + ".flip_is_on_one_leg_of_the_pair", all(e[2] in ((0,), (1,)) for e in flips))
         ob(tag + ".no_other_sign_operation", all(e[1] in ("phase_flip", "phase_sync") for e in log))
 
     return Task("C03.fermionic_trace.orchestration", ["C03", "C09", "C14"], [FA + ".trace"], body, assumes=["callee contracts: phase_flip / phase_sync (contracts/phases.py), AbelianArray.trace (contracts/einsum.py)"])
@@ -236,10 +255,9 @@ def _matmul_task():
         ob(tag + ".operands_untouched", untouched(log, "a") and untouched(log, "b"))
         flips = calls(log, what="phase_flip")
         # pair = (a's last leg, b's first leg): ket-then-bra  <=>  b's first leg is dual
-        ob(tag + ".parity_sign_exactly_when_the_pair_meets_as_ket_then_bra", (len(flips) == 1) == d_in and len(flips) <= 1)
+        ob(tag + ".parity_sign_exactly_when_the_pair_meets_as_ket_then_bra", (len(flips) % 2 == 1) == d_in)
         if flips:
-            f = flips[0]
-            ob(tag + ".flip_is_on_the_contracted_leg_of_one_operand_before_the_product", (f[0].startswith("b") and f[2] == (0,)) or (f[0].startswith("a") and f[2] in ((na - 1,), (-1,))))
+            ob(tag + ".flip_is_on_the_contracted_leg_of_one_operand_before_the_product", all((f[0].startswith("b") and f[2] == (0,)) or (f[0].startswith("a") and f[2] in ((na - 1,), (-1,))) for f in flips))
         ob(tag + ".no_sign_operation_on_the_operands_other_than_flip_and_sync", all(e[1] in ("phase_flip", "phase_sync") for e in log if not e[0].startswith("c")))
         ob(tag + ".labels_resolved_once_after_the_product_with_the_contracted_copies", len(rs) == 1 and rs[0][2] == 1 and rs[0][0][0] is args[0] and rs[0][0][1] is args[1] and rs[0][0][2] is c.obj)
         if cnd == 0:
@@ -312,10 +330,11 @@ def _einsum_task():
         ob(tag + ".operand_untouched", untouched(log, "x") and y is not x)
         ob(tag + ".preserve_array_forwarded", (kw.get("preserve_array") if "preserve_array" in kw else (args[2] if len(args) > 2 else None)) is preserve)
         trs = calls(log, what="transpose")
-        ob(tag + ".exactly_one_fermionic_transpose_and_no_other_sign_operation", len(trs) == 1 and all(e[1] in ("transpose", "phase_sync") for e in log) and trs[0][0] == "x")
-        if len(trs) != 1:
+        ob(tag + ".at_most_one_fermionic_transpose_and_no_other_sign_operation", len(trs) <= 1 and all(e[1] in ("transpose", "phase_sync", "copy") for e in log) and all(e[0] == "x" for e in trs))
+        if len(trs) > 1:
             return
-        perm = trs[0][2][0] if trs[0][2] else trs[0][3].get("axes")
+        # no transpose at all is the identity permutation
+        perm = tuple(range(n)) if not trs else (trs[0][2][0] if trs[0][2] else trs[0][3].get("axes"))
         okp = isinstance(perm, tuple) and sorted(perm) == list(range(n))
         ob(tag + ".transposes_by_a_permutation", okp)
         if not okp:
@@ -404,10 +423,10 @@ def _fuse_task(inplace):
         order = [e[1] for e in ops]
         # 1. one fermionic transpose making the groups contiguous
         trs = [e for e in ops if e[1] == "transpose"]
-        ob(tag + ".one_fermionic_transpose_first", len(trs) == 1 and order[0] == "transpose")
-        if len(trs) != 1:
+        ob(tag + ".at_most_one_fermionic_transpose_before_everything_else", len(trs) <= 1 and (not trs or order[0] == "transpose"))
+        if len(trs) > 1:
             return
-        perm = trs[0][2][0]
+        perm = trs[0][2][0] if trs else tuple(range(nd))  # no transpose at all is the identity permutation
         okp = isinstance(perm, tuple) and sorted(perm) == list(range(nd))
         ob(tag + ".transposes_by_a_permutation", okp)
         if not okp:
@@ -426,8 +445,7 @@ def _fuse_task(inplace):
         # 2. flips: non-dual members of groups whose first axis is dual
         want_flip = sorted(ax for g in newgroups if d_after[g[0]] for ax in g if not d_after[ax])
         flips = [e for e in ops if e[1] == "phase_flip"]
-        got_flip = sorted(a for e in flips for a in e[2])
-        ob(tag + ".parity_flip_of_exactly_the_non_dual_members_of_dual_groups", got_flip == want_flip and len(flips) <= 1)
+        ob(tag + ".parity_flip_of_exactly_the_non_dual_members_of_dual_groups", odd_axes(flips) == want_flip)
         # 3. virtual reversal inside each dual group
         want_v = list(range(nd))
         for g in newgroups:
@@ -436,7 +454,7 @@ def _fuse_task(inplace):
                     want_v[a_] = b_
         vts = [e for e in ops if e[1] == "phase_transpose"]
         any_dual = any(d_after[g[0]] for g in newgroups)
-        ob(tag + ".virtual_reversal_of_exactly_the_dual_groups", (len(vts) == 1 and vts[0][2] == (tuple(want_v),)) if any_dual else (len(vts) == 0 or (len(vts) == 1 and vts[0][2] == (tuple(range(nd)),))))
+        ob(tag + ".virtual_reversal_of_exactly_the_dual_groups", all(len(e[2]) == 1 for e in vts) and composed([e[2][0] for e in vts], nd) == tuple(want_v))
         # 4. sync, then the abelian fuse of the renumbered groups
         fc = [e for e in ops if e[1] == "_fuse_core"]
         ob(tag + ".abelian_fuse_called_once_with_the_renumbered_groups", len(fc) == 1 and fc[0][2] == newgroups and fc[0][3].get("inplace") is True)
@@ -507,7 +525,7 @@ def _unfuse_task(inplace):
         after = log[at:]
         ob(tag + ".only_synchronisation_before_the_blocks_are_split", all(e[1] == "phase_sync" for e in before))
         ob(tag + ".sign_operations_after_the_split_are_in_place_on_the_result", all(e[0] == w.name and e[4] == w.name for e in after))
-        flips = sorted(ax for e in after if e[1] == "phase_flip" for ax in e[2])
+        flips = odd_axes([e for e in after if e[1] == "phase_flip"])
         vts = [e for e in after if e[1] == "phase_transpose"]
         if fused_dual:
             want_flip = sorted(axis + i for i, d in enumerate(subduals) if not d)
@@ -515,9 +533,9 @@ def _unfuse_task(inplace):
             for i in range(nsub):
                 want_v[axis + i] = axis + nsub - 1 - i
             ob(tag + ".dual_index.non_dual_constituents_flipped_back", flips == want_flip)
-            ob(tag + ".dual_index.constituents_virtually_reversed_back", len(vts) == 1 and vts[0][2] == (tuple(want_v),))
+            ob(tag + ".dual_index.constituents_virtually_reversed_back", all(len(e[2]) == 1 for e in vts) and composed([e[2][0] for e in vts], nd + nsub - 1) == tuple(want_v))
         else:
-            ob(tag + ".non_dual_index.no_sign_operation", flips == [] and (not vts or all(e[2] == (tuple(range(nd + nsub - 1)),) for e in vts)))
+            ob(tag + ".non_dual_index.no_sign_operation", flips == [] and all(len(e[2]) == 1 for e in vts) and composed([e[2][0] for e in vts], nd + nsub - 1) == tuple(range(nd + nsub - 1)))
         ob(tag + ".no_other_sign_operation", all(e[1] in ("phase_flip", "phase_transpose", "phase_sync") for e in after))
 
     return Task(
